@@ -33,6 +33,13 @@ Shapes == {
     garbage |-> {}],
    [id |-> "oneof", schemas |-> {[oneOf |-> <<TInt, [type |-> "boolean"]>>]}, vals |-> {Num(28), Bool(TRUE)}, garbage |-> {}],
    [id |-> "anyof", schemas |-> {[anyOf |-> <<TInt, [type |-> "boolean"]>>]}, vals |-> {Num(28), Bool(FALSE)}, garbage |-> {}],
+   \* "type" as a list: a text is read as the first listed type it is a literal of (values whose text is a
+   \* literal of an earlier listed type than their own are ambiguous on the wire and left out)
+   [id |-> "multitype", schemas |-> {[types |-> <<"integer", "string">>], [types |-> <<"boolean", "integer">>],
+                                      [types |-> <<"integer", "string">>, maximum |-> 40]},
+    vals |-> {Num(28), Num(48)}, garbage |-> {}],
+   [id |-> "multitype_str", schemas |-> {[types |-> <<"integer", "string">>], [types |-> <<"boolean", "string">>]},
+    vals |-> {S(<<"a", "b">>)}, garbage |-> {}],
    [id |-> "allof", schemas |-> {[allOf |-> <<TInt>>]}, vals |-> {Num(28)}, garbage |-> {}]
 }
 
